@@ -314,6 +314,14 @@ func specCocCandOptMax(ten bool, u IntType) IntType {
 	return -1000
 }
 
+// specSameFlags(d, ctx): the parser data d carries the context's current syntax switches.
+func specSameFlags(d *ParserCustomData, ctx *Context) bool {
+	return d.Config.EnableDiceWoD == ctx.Config.EnableDiceWoD && d.Config.EnableDiceCoC == ctx.Config.EnableDiceCoC &&
+		d.Config.EnableDiceFate == ctx.Config.EnableDiceFate && d.Config.EnableDiceDoubleCross == ctx.Config.EnableDiceDoubleCross &&
+		d.Config.DisableBitwiseOp == ctx.Config.DisableBitwiseOp && d.Config.DisableStmts == ctx.Config.DisableStmts &&
+		d.Config.DisableNDice == ctx.Config.DisableNDice && d.Config.DefaultDiceSideExpr == ctx.Config.DefaultDiceSideExpr
+}
+
 // specInherits(vm, ctx): the sub-VM vm runs under its parent's configuration (dice families, statement switch,
 // min/max mode, budget) and draws from its parent's generator.  Function-typed fields cannot be compared in Go and are
 // not part of the predicate.
@@ -1546,6 +1554,30 @@ func (*Context).Init
   ensures ctx.Attrs != nil && ctx.globalNames != nil
   ensures [C06] ctx.Seed != nil ==> ctx.RandSrc != nil && isFresh(ctx.RandSrc)
   ensures [C06] ctx.Seed == nil ==> ctx.RandSrc == old(ctx.RandSrc)
+
+// Parse compiles `value` afresh on every call, with a new parser whose switches are the context's current ones: no
+// code compiled under an earlier configuration is reused (C16), and the parser starts from an empty code buffer (C08).
+// newParser and the PEG runtime's parse loop are generated code: assumed (listed), not verified.
+func newParser
+  props C16 C08 C01
+  noverify
+  assigns nothing
+  ensures result != nil && isFresh(result) && result.cur.data != nil && isFresh(result.cur.data)
+
+func (*parser).parse
+  props C16 C08 C01
+  noverify
+  requires p != nil && p.cur.data != nil
+  assigns *
+  ensures p.cur.data == old(p.cur.data)
+
+func (*Context).Parse
+  props C16 C08 C01
+  requires ctx != nil
+  ghost var parsed bool = false
+  ghost at precall 1 p.parse: parsed = true; ghostAssert(p == ctx.parser && isFresh(p) && d == p.cur.data && isFresh(d) && d.codeIndex == 0 && d.ctx == ctx && specSameFlags(d, ctx))
+  ensures [C16] result == nil ==> parsed
+  ensures old(ctx.IsRunning) ==> result != nil
 
 func (*Context).Run
   props C07 C01
